@@ -15,7 +15,7 @@ import ast
 from ..core import AnalysisError, norm, loc, walk_no_nested, attr_chain, call_name, kwarg
 from ..schema import containment_schema
 from ..flags import check_flag_scope
-from ..normalize import value_under, clone, inline, local_env, expand, canon, ctext, conjuncts, branch_values, merge_outcomes, Unknown, _enclosing
+from ..normalize import unroll_const_loops, value_under, clone, inline, local_env, expand, canon, ctext, conjuncts, branch_values, merge_outcomes, Unknown, _enclosing
 from .. import flow
 from . import c12
 
@@ -110,6 +110,8 @@ def run(prog, rep):
         raise AnalysisError('generate_adms / _update_delegations_on_node vanished')
     # helpers split off generate_adms are read as part of it (the rewrite helper itself and the catalogue stay calls)
     ga = inline(prog, arm, ga, exclude=('_update_delegations_on_node', 'catalog_delegations'), depth=4)
+    # ... and loops over class-level constant tuples (e.g. the classes that can own a service) row by row
+    ga = unroll_const_loops(prog, arm, ga)
 
     # only aliases (locals naming an attribute / an element of a container) are expanded, not computed values
     genv = {k: v for k, v in local_env(ga).items() if isinstance(v, (ast.Name, ast.Attribute, ast.Subscript))}
@@ -363,7 +365,25 @@ def run(prog, rep):
                                       f'the elements remembered from the interface-link-interface trace are the starting points of the owner traces '
                                       f'(service and its owner); hop {idx_} of {prs} is a {lab}, so the peer interface\'s service and owner are never '
                                       f'traced and are deleted from the partition')
-    if len(upd_pairs) < 3:
+    # every trace result reaches the keep set: directly, or through a local collection that is then added to it
+    def _alias_root(nm):
+        for _ in range(4):
+            defs_ = [a.value for a in walk_no_nested(ga) if isinstance(a, ast.Assign) and any(isinstance(t, ast.Name) and t.id == nm for t in a.targets)]
+            if len(defs_) == 1 and isinstance(defs_[0], ast.Name):
+                nm = defs_[0].id
+            else:
+                break
+        return nm
+    into_keep = {_alias_root(c.args[0].id) for c in walk_no_nested(ga) if isinstance(c, ast.Call) and isinstance(c.func, ast.Attribute) and
+                 c.func.attr in ('update', 'union') and ast.unparse(c.func.value).endswith('.keep_nodes') and c.args and isinstance(c.args[0], ast.Name)}
+    kept_traces = 0
+    for c in walk_no_nested(ga):
+        if isinstance(c, ast.Call) and isinstance(c.func, ast.Attribute) and c.func.attr == 'update' and _trace_element(c):
+            recv = c.func.value
+            if ast.unparse(recv).endswith('.keep_nodes') or (isinstance(recv, ast.Name) and _alias_root(recv.id) in into_keep):
+                kept_traces += 1
+    rep.instance('R4', f'generate_adms: {kept_traces} trace loop(s) feed the keep set')
+    if kept_traces < 3:
         rep.violation('R4', loc(mod, ga), 'ABCARMPropertyGraph.generate_adms', 'trace results not added to the keep set', 'traced elements must be kept')
 
     # every node and every delegation type is visited: the cataloguing and rewriting loops are never left early
